@@ -124,6 +124,7 @@ def wellFormed : List String → Bool
   | ["resp", k, i, v] => (nat? k).isSome && (idx? NB i).isSome && (v = "pass" || v = "fail")
   | ["kill", kd, i] => (match provKind? kd with | some v => (provIdx? v i).isSome | none => false)
   | ["shut", "b", i] => (idx? NB i).isSome
+  | ["shutby", i, j] => (idx? NB i).isSome && (idx? NC j).isSome
   | ["fin", k, c] => (nat? k).isSome && (caller? c).isSome
   | ["cancel", k, c] => (nat? k).isSome && (caller? c).isSome
   | ["wpl", k, j, value] => (nat? k).isSome && (idx? NC j).isSome && (nat? value).isSome
@@ -144,6 +145,7 @@ def parse (op okObs : List String) : Option Op :=
   | ["updb", i, cap, wp], [] => do pure (.updBlobber (← nat? i) (← optNat? cap) (← optNat? wp))
   | ["kill", "b", i], [ns, del] => do pure (.killBlobber (← nat? i) (← nat? ns) (del = "1"))
   | ["shut", "b", i], [ns, del] => do pure (.shutBlobber (← nat? i) (← nat? ns) (del = "1"))
+  | ["shutby", i, _j], [ns, del] => do pure (.shutBlobber (← nat? i) (← nat? ns) (del = "1"))
   | ["kill", "v", i], [ns, del] => do pure (.killValidator (← nat? i) (← nat? ns) (del = "1"))
   | ["newa", j, data, _parity, size, value, _bl], [chosen] => do
       pure (.newAlloc (← nat? j) (← nat? data) (← nat? size) (← nat? value) (← natCsv? chosen))
@@ -172,18 +174,26 @@ def fnv64 (s : String) : String :=
 structure DS where
   s : State
   stale : Bool
+  chain : String   -- running hash of the lines seen in this case (see `step`)
 
 def answer (st : String) (s : State) : State × String := (s, st ++ " # " ++ render s)
 
-/-- split the trailing `h=<hash>` token off the observations -/
-def splitHash (obs : List String) : List String × Option String :=
-  match obs.reverse with
-  | last :: rest => if last.startsWith "h=" then (rest.reverse, some (last.drop 2).toString) else (obs, none)
-  | [] => (obs, none)
+/-- split the trailing `h=<answer hash>` and `p=<chain hash>` tokens off the observations -/
+def splitHash (obs : List String) : List String × Option String × Option String :=
+  let (obs1, p) := match obs.reverse with
+    | last :: rest => if last.startsWith "p=" then (rest.reverse, some (last.drop 2).toString) else (obs, none)
+    | [] => (obs, none)
+  match obs1.reverse with
+  | last :: rest => if last.startsWith "h=" then (rest.reverse, some (last.drop 2).toString, p) else (obs1, none, p)
+  | [] => (obs1, none, p)
+
+/-- the text a line's chain hash covers: everything before the ` p=` token -/
+def chainText (ws : List String) : String :=
+  " ".intercalate (ws.filter fun w => !w.startsWith "p=")
 
 def stepCore (s : State) (op obs : List String) : State × String :=
   match op with
-  | ["init", _tag, _fork] => answer "ok" init
+  | ["init", _tag, mode] => answer "ok" (if mode = "2" then initNvr0 else init)
   | _ =>
   if !wellFormed op then (s, "bad-op") else
   match op with
@@ -237,21 +247,33 @@ def stepCore (s : State) (op obs : List String) : State × String :=
       else (s, "bad-op")
     | [] => (s, "bad-op")
 
-/-- one line: the model's answer, or `stale` once an answer did not match the hash recorded with the line (see
-`impl` in harness/cmd/storage/main.go: the implementation side masks the same lines when ITS answer changed). -/
+/-- one line: the model's answer, or `stale`.
+A history may reach the driver cut (the differ's shrinker drops lines); the amounts recorded in the remaining lines then
+no longer belong to it. Two guards, mirrored by `impl` of harness/cmd/storage/main.go:
+* every recorded line carries `p=` = hash of (previous line's `p`, this line's text): a line whose `p` does not continue
+  the chain of the lines actually seen — something before it was removed — and all later lines are answered `stale` by
+  BOTH sides, whatever they would compute;
+* `h=` = hash of the implementation's answer when the line was recorded: a side whose own answer differs answers
+  `stale` from there on. On an uncut history the implementation always reproduces `h`, so the model answering `stale`
+  there is a genuine disagreement. -/
 def step (d : DS) (ws : List String) : DS × String :=
   let (op, obs0) := splitObs ws
-  let (obs, h) := splitHash obs0
-  let fresh := match op with
+  let (obs, h, p) := splitHash obs0
+  let isInit := match op with
     | ["init", _, _] => true
-    | _ => !d.stale
+    | _ => false
+  let expected := if isInit then fnv64 (chainText ws) else fnv64 (d.chain ++ "|" ++ chainText ws)
+  let chainOk := match p with
+    | some pp => pp == expected
+    | none => true
+  let fresh := (isInit || !d.stale) && chainOk
   let (s', out) := stepCore d.s op obs
   let ok := match h with
     | some hh => fnv64 out == hh
     | none => true
-  if fresh && ok then (⟨s', false⟩, out) else (⟨s', true⟩, "stale")
+  if fresh && ok then (⟨s', false, expected⟩, out) else (⟨s', true, expected⟩, "stale")
 
-def run : IO Unit := ZChain.Drv.runLoop step ⟨init, false⟩
+def run : IO Unit := ZChain.Drv.runLoop step ⟨init, false, ""⟩
 
 end ZChain.Drv.STORAGE
 
